@@ -446,7 +446,7 @@ static int runStress(const vx_cmd* c, long execno)
 	if (n < 1 || n > MAXT || !parseProgs(c, n, (uint64_t)execno)) return 0;
 	g_n = n;
 	jBegin(); jStr("e", "Reset"); jInt("n", n); jInt("once", g_created_before ? 1 : 0); jBool("inited", g_created_before);
-	jBool("hooks", haveHooks()); jBool("obs_once", g_hooks_installed); jBool("exact", g_stamp_atomic);
+	jBool("first", execno == 1); jBool("hooks", haveHooks()); jBool("obs_once", g_hooks_installed); jBool("exact", g_stamp_atomic);
 	{
 		char progs[MAXT * (MAXCALLS + 1) + 1]; int pos = 0;
 		for (i = 0; i < n; ++i) { for (k = 0; k < g_t[i].ncalls; ++k) progs[pos++] = cletter[g_t[i].prog[k]]; progs[pos++] = i + 1 < n ? '|' : 0; }
@@ -533,6 +533,7 @@ static void runReplayChild(vx_cmd* c)
 		else if (!strcmp(a, "IFail")) { if (from != Y_CASAFTER) replayFail(id, i, s, "not-after-cas", from, Y_CASAFTER); want = Y_PUB; }   /* rngInit fails and returns */
 		else if (!strcmp(a, "Pub")) { if (from != Y_PUB) replayFail(id, i, s, "not-at-pub", from, Y_PUB); want = Y_PUBAFTER; }
 		else if (!strcmp(a, "CChk")) { if (from != Y_PUBAFTER && from != Y_CASAFTER) replayFail(id, i, s, "not-past-once", from, Y_PUBAFTER); want = Y_LOCK, want2 = Y_IDLE; }
+		else if (!strcmp(a, "VChkV")) real = 0;                            /* the trigger read 1: rngIsValid goes on to _inited */
 		else if (!strcmp(a, "VChk")) { if (from != Y_IDLE) replayFail(id, i, s, "vchk-not-idle", from, Y_IDLE); want = Y_LOCK, want2 = Y_IDLE; }
 		else if (!strcmp(a, "Lock")) { if (from != Y_LOCK) replayFail(id, i, s, "not-at-lock", from, Y_LOCK); want = Y_LOCKED; }
 		else if (!strcmp(a, "Body")) { if (from != Y_LOCKED) replayFail(id, i, s, "not-locked", from, Y_LOCKED); want = Y_UNLOCKING; }
@@ -569,6 +570,13 @@ static void runReplayChild(vx_cmd* c)
 		}
 		else if (real && t->vs.at == Y_IDLE && strcmp(a, "Unlock") == 0) replayFail(id, i, s, "unexpected-return", 0, 0);
 		done = i + 1;
+	}
+	if (vxInt(c, "probe", 0))
+	{
+		/* where did the threads get to?  (used to learn which variant of rngIsValid the tree has) */
+		jBegin(); jStr("e", "Probe"); jInt("id", id); jBool("ok", 1); jStr("at", vs_yname[g_t[0].vs.at]); jStr("rc", g_t[0].last_rc ? g_t[0].last_rc : "-"); jEnd();
+		fflush(stdout);
+		_exit(0);
 	}
 	for (i = 0; i < n; ++i)
 		if (g_t[i].vs.at != Y_IDLE || g_t[i].callno != g_t[i].ncalls) replayFail(id, done, 0, "program-unfinished", g_t[i].vs.at, g_t[i].callno);
